@@ -27,13 +27,36 @@
    "receives exactly the executable, the argument vector and the environment it was given"
         -> launch_argv_exact, launch_argv0_exact, launch_list_exact, launch_cmdline_exact,
            launch_cmdline_total (pure preparation code: arrays handed to execvpe)
-   exec itself, join()/exit code, redirected streams up to end-of-file, stdin bytes intact
-        -> validated by correspondence only (helper child, see checks/C20.py level_note). *)
+   "(after the documented quoting rules of the command-line form)", words ending in a backslash (round 3)
+        -> splitter_trailing_backslash_exact / _last / _merges (what the splitter makes of the plain
+           quoting of such a word), splitter_roundtrip_all_words, reference_roundtrip_all_words (a quoting
+           for EVERY word: split(join words) = words without side condition)
+   anchor "environment setters/getters" (the environment a child inherits when it is given none)
+        -> environment_get_refines_map, environment_set_refines_map, environment_enumeration,
+           environment_get_after_set (get-after-set, the empty value unsets, other names untouched),
+           environment_bad_name_unchanged, environment_stays_duplicate_free, environment_set_result
+           (noted: for an empty value the bool result is the int of unsetenv - inverted)
+   anchor "join/kill reap and close pipes", "pid and pipe descriptors with 0 meaning closed"
+        -> process_step_invariant_and_refinement (one step: invariant kept, answers of the life-cycle
+           reference), process_refines_lifecycle (whole histories), process_never_closes_twice (ALL
+           histories, all kernel answers with fresh descriptors), process_accounting_unconditional,
+           process_holds_one_descriptor_per_stream, join_returns_kernel_exit_code,
+           idle_process_refuses_without_side_effects, idle_close_is_noop, running_process_refuses_second_start,
+           failed_wait_can_be_retried.
+           FULL statement "every descriptor handed to the object is closed exactly once by the time the
+           destructor has finished, for every history and every kernel answer" is FALSE of the code:
+           process_descriptor_leak_refuted (vfork fails in open: the pipes stay open; waitpid fails in the
+           destructor's join: the stream descriptors stay open).  Proved instead:
+           process_descriptors_closed_exactly_once_partial - for all histories without exactly these two events.
+           noted: read_write_without_stream_use_descriptor_zero.
+   exec itself, redirected streams up to end-of-file, stdin bytes intact, what waitpid/pipe/vfork return
+        -> validated by correspondence only / inputs of the model (see checks/C20.py level_note). *)
 From Coq Require Import ZArith List.
 From Coq Require String.
 Import String.StringSyntax.
 From Common Require Import Words.
-From Args Require Import ArgsSpec ArgsModel ArgsProofs ArgsExamples.
+From Coq Require Import Bool Permutation.
+From Args Require Import ArgsSpec ArgsModel ProcSpec ProcModel ArgsProofs ArgsExamples.
 Import ListNotations.
 Local Open Scope Z_scope.
 
@@ -202,6 +225,60 @@ Example splitter_roundtrip_ex :
   split_model (join_words [B "a\"]) = Ok [B "a"""].
 Proof. repeat split; vm_compute; reflexivity. Qed.
 
+(* round 3: the words that end in a backslash *)
+Theorem splitter_trailing_backslash_exact : forall ws u tail,
+  Forall nz ws -> nz u -> nz tail -> Forall quotable ws ->
+  split_model (join_words (ws ++ [u ++ [ch_bslash]]) ++ tail) =
+  Ok (ws ++ close_words (u ++ ch_quote :: fst (fst (ref_scan true tail))) true (snd (ref_scan true tail))).
+Proof. exact split_model_trailing_backslash. Qed.
+Print Assumptions splitter_trailing_backslash_exact.
+
+(* the backslash has escaped the closing quote: the word ends in a quote character and takes in the
+   rest of the line, which is read in quoted mode: a space does not separate, a quote ends the mode *)
+Example splitter_trailing_backslash_exact_ex :
+  split_model (join_words [B "p"; B "a\"] ++ B " x y"" z") = Ok [B "p"; B "a"" x y"; B "z"] /\
+  ref_scan true (B " x y"" z") = (B " x y", true, Some [B "z"]).
+Proof. split; vm_compute; reflexivity. Qed.
+
+Theorem splitter_trailing_backslash_last : forall ws u,
+  Forall nz ws -> nz u -> Forall quotable ws ->
+  split_model (join_words (ws ++ [u ++ [ch_bslash]])) = Ok (ws ++ [u ++ [ch_quote]]).
+Proof. exact split_model_trailing_backslash_last. Qed.
+Print Assumptions splitter_trailing_backslash_last.
+
+Example splitter_trailing_backslash_last_ex :
+  split_model (join_words [B "p"; B "dir\"]) = Ok [B "p"; B "dir"""] /\
+  split_model (join_words [B "\\"]) = Ok [B "\"""] /\ join_words [B "dir\"] = B """dir\""".
+Proof. repeat split; vm_compute; reflexivity. Qed.
+
+Theorem splitter_trailing_backslash_merges : forall ws u ws2,
+  Forall nz ws -> nz u -> Forall nz ws2 -> Forall quotable ws -> Forall plain ws2 -> ws2 <> [] ->
+  split_model (join_words (ws ++ [u ++ [ch_bslash]] ++ ws2)) = Ok (ws ++ [u ++ ch_quote :: glue ws2]).
+Proof. exact split_model_trailing_backslash_merges. Qed.
+Print Assumptions splitter_trailing_backslash_merges.
+
+Example splitter_trailing_backslash_merges_ex :
+  split_model (join_words [B "p"; B "a\"; B "b\c"; B "d"]) = Ok [B "p"; B "a"" b\c d"] /\
+  Forall plain [B "b\c"; B "d"] /\ glue [B "b\c"; B "d"] = B " b\c d".
+Proof.
+  split; [vm_compute; reflexivity|]. split; [|vm_compute; reflexivity].
+  repeat constructor; discriminate.
+Qed.
+
+Theorem reference_roundtrip_all_words : forall ws, split_ref (join_words_bs ws) = ws.
+Proof. exact split_ref_join_bs. Qed.
+Print Assumptions reference_roundtrip_all_words.
+
+Theorem splitter_roundtrip_all_words : forall ws, Forall nz ws -> split_model (join_words_bs ws) = Ok ws.
+Proof. exact split_model_roundtrip_all. Qed.
+Print Assumptions splitter_roundtrip_all_words.
+
+Example splitter_roundtrip_all_words_ex :
+  let ws := [B "p"; B "dir\"; B "a b\\"; B "\"; B ""; B "q""\"] in
+  join_words_bs ws = B """p"" ""dir""\ ""a b""\\ """"\ """" ""q\""""\" /\
+  split_model (join_words_bs ws) = Ok ws /\ split_ref (join_words_bs ws) = ws.
+Proof. repeat split; vm_compute; reflexivity. Qed.
+
 (* ---------------- C. what is handed to exec ---------------- *)
 
 Theorem launch_argv_exact : forall exe argv env,
@@ -253,3 +330,274 @@ Example launch_cmdline_exact_ex :
         x_env := None |} /\
   launch_cmdline [] [] = Ok {| x_program := []; x_args := [[]]; x_env := None |}.
 Proof. split; vm_compute; reflexivity. Qed.
+
+(* ---------------- D. the process environment (round 3) ---------------- *)
+
+Theorem environment_get_refines_map : forall env name d, env_ok env -> name_ok (cstr name) = true ->
+  get_env_var name d env = ref_get (get_env_vars env) name d.
+Proof. exact get_refines. Qed.
+Print Assumptions environment_get_refines_map.
+
+Example environment_get_refines_map_ex :
+  env_ok ex_environ /\ get_env_var (B "HOME") (B "d") ex_environ = B "/h" /\
+  get_env_var (B "junk") (B "d") ex_environ = B "d" /\ get_env_vars ex_environ = [(B "A", B "1"); (B "E", []); (B "HOME", B "/h")].
+Proof.
+  split; [unfold env_ok; vm_compute; repeat (constructor; [cbn; intuition discriminate|]); constructor|].
+  repeat split; vm_compute; reflexivity.
+Qed.
+
+Theorem environment_set_refines_map : forall env name value, env_ok env ->
+  snd (ref_set (get_env_vars env) name value) = get_env_vars (snd (set_env_var name value env)) /\
+  env_ok (snd (set_env_var name value env)).
+Proof. exact set_refines. Qed.
+Print Assumptions environment_set_refines_map.
+
+Example environment_set_refines_map_ex :
+  snd (set_env_var (B "B") (B "2") ex_environ) = ex_environ ++ [B "B=2"] /\
+  snd (set_env_var (B "A") (B "x=y") ex_environ) = [B "HOME=/h"; B "junk"; B "A=x=y"; B "E="] /\
+  snd (set_env_var (B "E") [] ex_environ) = [B "HOME=/h"; B "junk"; B "A=1"] /\
+  snd (ref_set (get_env_vars ex_environ) (B "B") (B "2")) = [(B "A", B "1"); (B "B", B "2"); (B "E", []); (B "HOME", B "/h")].
+Proof. repeat split; vm_compute; reflexivity. Qed.
+
+Theorem environment_get_after_set : forall env name value d, env_ok env -> name_ok (cstr name) = true ->
+  let env' := snd (set_env_var name value env) in
+  env_ok env' /\
+  get_env_var name d env' = match value with [] => d | _ => cstr value end /\
+  forall other, name_ok (cstr other) = true -> cstr other <> cstr name ->
+                get_env_var other d env' = get_env_var other d env.
+Proof. exact get_after_set. Qed.
+Print Assumptions environment_get_after_set.
+
+Example environment_get_after_set_ex :
+  get_env_var (B "A") (B "d") (snd (set_env_var (B "A") (B "new") ex_environ)) = B "new" /\
+  get_env_var (B "A") (B "d") (snd (set_env_var (B "A") [] ex_environ)) = B "d" /\
+  get_env_var (B "HOME") (B "d") (snd (set_env_var (B "A") [] ex_environ)) = B "/h" /\
+  (* a value that starts with a NUL byte is not empty: the variable is set to the empty C string *)
+  get_env_var (B "A") (B "d") (snd (set_env_var (B "A") [0; 120] ex_environ)) = [].
+Proof. repeat split; vm_compute; reflexivity. Qed.
+
+Theorem environment_enumeration : forall env, env_ok env ->
+  sorted (get_env_vars env) /\
+  forall name d, name_ok (cstr name) = true ->
+    get_env_var name d env = match em_find (get_env_vars env) (cstr name) with Some v => v | None => d end.
+Proof. exact enumeration_law. Qed.
+Print Assumptions environment_enumeration.
+
+Example environment_enumeration_ex :
+  get_env_vars [B "b=2"; [200; 61; 49]; B "a=1"; B "nokey"; B "B=3"] = [(B "B", B "3"); (B "a", B "1"); (B "b", B "2"); ([200], B "1")].
+Proof. vm_compute. reflexivity. Qed.
+
+(* noted (outside the statement): the bool result.  For a value that is not empty it says whether the
+   name was accepted; for an empty value it is the int result of unsetenv taken as a bool - false when
+   the variable was removed, true when the name was refused *)
+Theorem environment_set_result : forall env name value,
+  fst (set_env_var name value env) =
+  match value with [] => negb (name_ok (cstr name)) | _ => name_ok (cstr name) end /\
+  fst (ref_set (get_env_vars env) name value) = name_ok (cstr name).
+Proof. exact set_result. Qed.
+Print Assumptions environment_set_result.
+
+Example environment_set_result_ex :
+  set_env_var (B "A") [] ex_environ = (false, [B "HOME=/h"; B "junk"; B "E="]) /\
+  set_env_var (B "A=B") [] ex_environ = (true, ex_environ) /\
+  fst (set_env_var (B "A") (B "v") ex_environ) = true /\ fst (set_env_var [] (B "v") ex_environ) = false.
+Proof. repeat split; vm_compute; reflexivity. Qed.
+
+Theorem environment_bad_name_unchanged : forall env name value,
+  name_ok (cstr name) = false -> snd (set_env_var name value env) = env.
+Proof. exact set_bad_name. Qed.
+Print Assumptions environment_bad_name_unchanged.
+
+Example environment_bad_name_unchanged_ex :
+  name_ok (cstr (B "A=B")) = false /\ name_ok (cstr [0; 65]) = false /\ name_ok (cstr [65; 0; 61]) = true.
+Proof. repeat split; vm_compute; reflexivity. Qed.
+
+Theorem environment_stays_duplicate_free : forall ops env, env_ok env -> env_ok (run_sets ops env).
+Proof. exact run_sets_ok. Qed.
+Print Assumptions environment_stays_duplicate_free.
+
+Example environment_stays_duplicate_free_ex :
+  env_ok [] /\ run_sets [(B "A", B "1"); (B "B", B "2"); (B "A", B "3"); (B "B", [])] [] = [B "A=3"].
+Proof. split; [exact env_ok_nil|vm_compute; reflexivity]. Qed.
+
+(* ---------------- E. the Process object (round 3) ---------------- *)
+
+Theorem process_step_invariant_and_refinement : forall lost o s w, PInv lost s w -> op_ok o ->
+  exists lost',
+    PInv lost' (snd (fst (pstep o s w))) (snd (pstep o s w)) /\
+    (may_leak o = false -> lost' = lost) /\
+    (specified (abs s) o -> lstep (abs s) o = (fst (fst (pstep o s w)), abs (snd (fst (pstep o s w))))).
+Proof. exact pstep_ok. Qed.
+Print Assumptions process_step_invariant_and_refinement.
+
+Example process_step_invariant_and_refinement_ex :
+  PInv [] pobj0 world0 /\ op_ok (ex_open7 (Some 4242)) /\
+  pstep (ex_open7 (Some 4242)) pobj0 world0 =
+    (RBool true, {| p_pid := 4242; p_out := 3; p_err := 5; p_in := 8 |},
+     {| w_fds := [3; 5; 8]; w_stray := []; w_kids := [4242];
+        w_log := [KPipe 3 4; KPipe 5 6; KPipe 7 8; KVfork 4242; KClose 4; KClose 6; KClose 7] |}) /\
+  lstep LIdle (ex_open7 (Some 4242)) = (RBool true, LRunning 4242 true true true).
+Proof.
+  split; [exact pinv_init|]. split; [apply ex_open7_ok; discriminate|]. split; vm_compute; reflexivity.
+Qed.
+
+(* descriptor 0 of the caller closed: every pipe comes back with 0 as its read end and is moved away *)
+Example process_open_descriptor_zero_ex :
+  let o := POpen 5 (pa_zero 3 4) pa_none (pa_zero 5 6) (Some 77) in
+  op_ok o /\
+  pstep o pobj0 world0 =
+    (RBool true, {| p_pid := 77; p_out := 4; p_err := 0; p_in := 5 |},
+     {| w_fds := [4; 5]; w_stray := []; w_kids := [77];
+        w_log := [KPipe 0 3; KDup 4; KClose 0; KPipe 0 5; KDup 6; KClose 0; KVfork 77; KClose 3; KClose 6] |}).
+Proof.
+  cbn zeta. split; [|vm_compute; reflexivity].
+  cbn. repeat split; try discriminate. repeat (constructor; [cbn; intuition discriminate|]). constructor.
+Qed.
+
+Theorem process_refines_lifecycle : forall ops, Forall op_ok ops -> all_specified ops LIdle ->
+  lrun ops LIdle = (fst (fst (prun ops pobj0 world0)), abs (snd (fst (prun ops pobj0 world0)))).
+Proof. exact refines_lifecycle. Qed.
+Print Assumptions process_refines_lifecycle.
+
+Example process_refines_lifecycle_ex :
+  let ops := [ex_open7 (Some 4242); PRead 100; PClose 4; ex_open7 (Some 9); PJoin None; PJoin (Some 768); PJoin (Some 0); PDestroy None] in
+  Forall op_ok ops /\ all_specified ops LIdle /\
+  fst (fst (prun ops pobj0 world0)) = [RBool true; RIo 100; RUnit; RRefused; RBool false; RJoin 3; RRefused; RUnit] /\
+  w_fds (snd (prun ops pobj0 world0)) = [].
+Proof.
+  cbn zeta. split.
+  - repeat (constructor; [first [apply ex_open7_ok; discriminate | exact I]|]). constructor.
+  - split; [vm_compute; tauto|]. split; vm_compute; reflexivity.
+Qed.
+
+Theorem process_never_closes_twice : forall ops, Forall op_ok ops -> w_stray (snd (prun ops pobj0 world0)) = [].
+Proof. exact no_double_close. Qed.
+Print Assumptions process_never_closes_twice.
+
+(* the record is not idle: a close of a descriptor that is not held is written down *)
+Example process_never_closes_twice_ex :
+  w_stray (k_close 9 world0) = [9] /\
+  w_stray (snd (prun [ex_open7 None; ex_open7 (Some 1); PClose 7; PKill (Some 9); PDestroy None] pobj0 world0)) = [].
+Proof. split; vm_compute; reflexivity. Qed.
+
+Theorem process_accounting_unconditional : forall ops s w, Acc w -> Acc (snd (prun ops s w)).
+Proof. exact acc_prun. Qed.
+Print Assumptions process_accounting_unconditional.
+
+Example process_accounting_unconditional_ex :
+  Acc world0 /\
+  let w := snd (prun [ex_open7 (Some 1); PJoin (Some 0)] pobj0 world0) in
+  times_opened (w_log w) 3 = 1%nat /\ times_closed (w_log w) 3 = 1%nat /\ times_opened (w_log w) 9 = 0%nat.
+Proof. split; [exact acc_world0|]. cbn zeta. repeat split; vm_compute; reflexivity. Qed.
+
+(* FULL: forall ops wt, Forall op_ok ops -> the three conclusions below.  False: process_descriptor_leak_refuted.
+   Proved for every history on which vfork does not fail inside open() and whose destructor is not the
+   one whose waitpid fails while a process is running. *)
+Theorem process_descriptors_closed_exactly_once_partial : forall ops wt,
+  Forall op_ok ops -> clean ops = true -> (wt <> None \/ p_pid (snd (fst (prun ops pobj0 world0))) = 0) ->
+  let w := snd (prun (ops ++ [PDestroy wt]) pobj0 world0) in
+  w_fds w = [] /\ w_stray w = [] /\ forall fd, times_opened (w_log w) fd = times_closed (w_log w) fd.
+Proof. exact closed_exactly_once. Qed.
+Print Assumptions process_descriptors_closed_exactly_once_partial.
+
+Example process_descriptors_closed_exactly_once_partial_ex :
+  let ops := [POpen 7 (pa_pair 3 4) (pa_pair 5 6) pa_none (Some 1); ex_open7 (Some 4242); PClose 1; PKill None] in
+  Forall op_ok ops /\ clean ops = true /\
+  w_log (snd (prun (ops ++ [PDestroy (Some 9)]) pobj0 world0)) =
+    [KPipe 3 4; KPipe 5 6; KPipeFail; KClose 3; KClose 4; KClose 5; KClose 6;
+     KPipe 3 4; KPipe 5 6; KPipe 7 8; KVfork 4242; KClose 4; KClose 6; KClose 7; KClose 3;
+     KKill 4242; KWait 4242 None; KWait 4242 (Some 9); KClose 5; KClose 8].
+Proof.
+  cbn zeta. split.
+  - constructor.
+    + cbn. repeat split; try discriminate. repeat (constructor; [cbn; intuition discriminate|]). constructor.
+    + repeat (constructor; [first [apply ex_open7_ok; discriminate | exact I]|]). constructor.
+  - split; vm_compute; reflexivity.
+Qed.
+
+Theorem process_descriptor_leak_refuted :
+  (exists ops wt, Forall op_ok ops /\ wt <> None /\
+     w_fds (snd (prun (ops ++ [PDestroy wt]) pobj0 world0)) = [3; 4; 5; 6; 7; 8] /\
+     w_stray (snd (prun (ops ++ [PDestroy wt]) pobj0 world0)) = []) /\
+  (exists ops, Forall op_ok ops /\ clean ops = true /\
+     w_fds (snd (prun (ops ++ [PDestroy None]) pobj0 world0)) = [3; 5; 8] /\
+     w_stray (snd (prun (ops ++ [PDestroy None]) pobj0 world0)) = []).
+Proof. exact (conj leak_when_vfork_fails leak_when_destructor_join_fails). Qed.
+Print Assumptions process_descriptor_leak_refuted.
+
+Theorem process_holds_one_descriptor_per_stream : forall ops, Forall op_ok ops -> clean ops = true ->
+  let s := snd (fst (prun ops pobj0 world0)) in
+  let w := snd (prun ops pobj0 world0) in
+  length (w_fds w) = lheld (abs s) /\ Permutation (w_fds w) (fields s) /\ (p_pid s = 0 -> w_fds w = []).
+Proof. exact holds_one_per_stream. Qed.
+Print Assumptions process_holds_one_descriptor_per_stream.
+
+Example process_holds_one_descriptor_per_stream_ex :
+  let r := prun [ex_open7 (Some 4242); PClose 2] pobj0 world0 in
+  w_fds (snd r) = [3; 8] /\ abs (snd (fst r)) = LRunning 4242 true false true /\ lheld (abs (snd (fst r))) = 2%nat.
+Proof. cbn zeta. repeat split; vm_compute; reflexivity. Qed.
+
+Theorem join_returns_kernel_exit_code : forall lost s w status, PInv lost s w -> p_pid s <> 0 ->
+  fst (fst (pstep (PJoin (Some status)) s w)) = RJoin (wexit status) /\
+  abs (snd (fst (pstep (PJoin (Some status)) s w))) = LIdle /\
+  PInv lost (snd (fst (pstep (PJoin (Some status)) s w))) (snd (pstep (PJoin (Some status)) s w)).
+Proof. exact join_exit_code. Qed.
+Print Assumptions join_returns_kernel_exit_code.
+
+Theorem wait_status_of_exit_code : forall c, 0 <= c < 256 -> wexit (c * 256) = c.
+Proof. exact wexit_code. Qed.
+Print Assumptions wait_status_of_exit_code.
+
+(* a child that was ended by a signal is reported as "joined, exit code 0" *)
+Example join_returns_kernel_exit_code_ex :
+  fst (fst (prun [ex_open7 (Some 4242); PJoin (Some (255 * 256))] pobj0 world0)) = [RBool true; RJoin 255] /\
+  wexit 9 = 0 /\ wexit (3 * 256) = 3.
+Proof. repeat split; vm_compute; reflexivity. Qed.
+
+Theorem idle_process_refuses_without_side_effects : forall lost s w o, PInv lost s w -> p_pid s = 0 ->
+  match o with PJoin _ | PKill _ | PRead2 _ _ _ => True | _ => False end ->
+  pstep o s w = (RRefused, s, w).
+Proof. exact idle_refuses. Qed.
+Print Assumptions idle_process_refuses_without_side_effects.
+
+Theorem idle_close_is_noop : forall lost s w st, PInv lost s w -> p_pid s = 0 -> pstep (PClose st) s w = (RUnit, s, w).
+Proof. exact ProcProofsObj.idle_close_is_noop. Qed.
+Print Assumptions idle_close_is_noop.
+
+Example idle_process_refuses_without_side_effects_ex :
+  prun [PJoin (Some 0); PKill (Some 9); PRead2 3 3 10; PClose 7; PIsRunning] pobj0 world0 =
+  ([RRefused; RRefused; RRefused; RUnit; RBool false], pobj0, world0).
+Proof. vm_compute. reflexivity. Qed.
+
+Theorem running_process_refuses_second_start : forall s w o, p_pid s <> 0 ->
+  match o with POpen _ _ _ _ _ | PStart _ => True | _ => False end ->
+  pstep o s w = (RRefused, s, w).
+Proof. exact running_refuses. Qed.
+Print Assumptions running_process_refuses_second_start.
+
+Example running_process_refuses_second_start_ex :
+  fst (fst (prun [PStart (Some 5); ex_open7 (Some 6); PStart (Some 7); PIsRunning] pobj0 world0)) =
+  [RBool true; RRefused; RRefused; RBool true].
+Proof. vm_compute. reflexivity. Qed.
+
+Theorem failed_wait_can_be_retried : forall s w, p_pid s <> 0 ->
+  pstep (PJoin None) s w = (RBool false, s, emit (KWait (p_pid s) None) w) /\
+  pstep (PKill None) s w = (RBool false, s, emit (KWait (p_pid s) None) (emit (KKill (p_pid s)) w)).
+Proof. exact failed_wait_keeps. Qed.
+Print Assumptions failed_wait_can_be_retried.
+
+Example failed_wait_can_be_retried_ex :
+  fst (fst (prun [PStart (Some 5); PJoin None; PKill None; PJoin (Some 9)] pobj0 world0)) =
+  [RBool true; RBool false; RBool false; RJoin 0].
+Proof. vm_compute. reflexivity. Qed.
+
+(* noted (outside the statement): without a stream, read(buffer, length) and write() operate on descriptor 0 *)
+Theorem read_write_without_stream_use_descriptor_zero : forall lost s w ans, PInv lost s w -> p_pid s = 0 ->
+  pstep (PRead ans) s w = (RIo ans, s, emit (KRead 0) w) /\
+  pstep (PWrite ans) s w = (RIo ans, s, emit (KWrite 0) w).
+Proof. exact ProcProofsObj.read_write_without_stream_use_descriptor_zero. Qed.
+Print Assumptions read_write_without_stream_use_descriptor_zero.
+
+Example read_write_without_stream_use_descriptor_zero_ex :
+  w_log (snd (prun [PRead 64; PWrite 5] pobj0 world0)) = [KRead 0; KWrite 0].
+Proof. vm_compute. reflexivity. Qed.
